@@ -70,10 +70,10 @@ def unit_lock_discipline(ctx):
     common = lambda acc: set.intersection(*[set(e[3]) for e in acc]) if acc else set()
     LB, LO = common(buf_acc), common(out_acc)
     ctx.oblige("panoptica_aggregator[trace]/lock-discipline(every buffer access after construction holds one common lock)", [], z3.BoolVal(bool(buf_acc) and len(LB) >= 1), func=fn,
-               replay="c16.schedules", info={"accesses": str([(e[1], e[3]) for e in buf_acc][:6])})
+               replay="c16.schedules", info={"structural": True, "accesses": str([(e[1], e[3]) for e in buf_acc][:6])})
     ctx.oblige("panoptica_aggregator[trace]/lock-discipline(every output-file access after construction, incl. make_statistic's read, holds one common lock)", [],
                z3.BoolVal(bool(out_acc) and len(LO) >= 1 and any(e[1] in ("read", "open-read") for e in out_acc)), func=fn, replay="c16.schedules",
-               info={"accesses": str([(e[1], e[3]) for e in out_acc][:6])})
+               info={"structural": True, "accesses": str([(e[1], e[3]) for e in out_acc][:6])})
     # atomic check-then-claim: between the acquire that precedes the buffer read and the append of the claim no lock of LB is released
     seq = [(i, e) for i, e in enumerate(post) if e[0] in ("fs", "acquire", "release")]
     ok_atomic = True
@@ -94,7 +94,7 @@ def unit_lock_discipline(ctx):
                 j -= 1
             ok_atomic = ok_atomic and seen_read
     ctx.oblige("panoptica_aggregator[trace]/atomic-claim(read of the claims, membership test and claim append lie in ONE critical section)", [], z3.BoolVal(bool(ok_atomic and claims == 2)), func=fn,
-               replay="c16.schedules")
+               replay="c16.schedules", info={"structural": True})
     # files are closed before the lock is released
     open_files, ok_close = set(), True
     for e in post:
